@@ -615,69 +615,112 @@ func ruleXRefStreamRows(c *core.Ctx, rule string) {
 	fn := c.Prog.Func("pdf", "(*Writer).writeXRefStream")
 	g := fn.Graph()
 	info := fn.Info()
-	heads := loopHeads(g)
+	_ = loopHeads
 	c.Check(rule, "pdf.(*Writer).writeXRefStream/maxima", "the width of each field is derived from a maximum that is updated for every entry, independently of the other field", func(o *core.Ob) {
-		if len(heads) < 2 {
-			core.Undecided("expected a sizing loop and a writing loop")
-		}
-		head := heads[0]
+		head, _ := xrefStreamLoops(g)
 		o.At(fn.Site(head.AST, "sizing loop"))
-		for _, k := range []string{"2", "3"} {
-			mx := localVar(fn, "maxField"+k, 0)
-			f := localVar(fn, "f"+k, 0)
-			// comparison vertex
-			var cmp *core.V
-			for _, bv := range g.BranchVertices() {
-				if bv.Cond.Expr != nil && core.Mentions(info, bv.Cond.Expr, mx) && core.Mentions(info, bv.Cond.Expr, f) {
-					cmp = bv
-				}
-			}
-			if cmp == nil {
-				o.Fail("no comparison of f%s with maxField%s", k, k)
-				continue
-			}
-			o.At(fn.Site(cmp.AST, "max update "+k))
-			// every assignment of fK must be followed by the comparison before the next iteration
-			for _, dv := range defVertices(g, f) {
-				if _, isSpec := dv.AST.(*ast.ValueSpec); isSpec {
+		w2, w3 := xrefWidthVars(fn)
+		inLoop := g.ReachFrom(succ(head, core.EdgeTrue), true, core.AvoidVs(head))
+		for i, w := range []types.Object{w2, w3} {
+			k := []string{"2", "3"}[i]
+			// wK = (bits.Len64(mx) + 7) / 8
+			var mx types.Object
+			for _, n := range core.AssignsTo(info, fn.Decl, w) {
+				as, ok := n.(*ast.AssignStmt)
+				if !ok || len(as.Rhs) != 1 {
 					continue
 				}
-				if !g.MustPassBefore(dv, []*core.V{head}, []*core.V{cmp}) {
-					o.FailAt(fn.Site(dv.AST, ""), "after this assignment of f%s the loop can continue without comparing it with maxField%s (field would be written truncated)", k, k)
+				src := core.ExprStr(as.Rhs[0])
+				if !strings.Contains(src, "+ 7") || !strings.Contains(src, "/ 8") {
+					continue
+				}
+				for _, call := range core.CallsTo(info, as.Rhs[0], false, "math/bits.Len64") {
+					if len(call.Args) == 1 {
+						mx = core.ObjOf(info, call.Args[0])
+					}
 				}
 			}
-			// the true edge assigns maxFieldK = fK
-			okAssign := false
+			if mx == nil {
+				o.Fail("the width of field %s is not (bits.Len64(maximum)+7)/8", k)
+				continue
+			}
+			// updates of the maximum inside the sizing loop: mx = f under f > mx, or mx = max(mx, f)
+			var f types.Object
+			var updates []*core.V
 			for _, dv := range defVertices(g, mx) {
-				if as, ok := dv.AST.(*ast.AssignStmt); ok && as.Tok == token.ASSIGN && core.ObjOf(info, as.Rhs[0]) == f {
-					if g.EdgeDominates(dv, core.EdgeRef{From: cmp, Label: core.EdgeTrue}) {
-						okAssign = true
+				if !inLoop[dv] {
+					continue
+				}
+				as, ok := dv.AST.(*ast.AssignStmt)
+				if !ok || as.Tok != token.ASSIGN || len(as.Rhs) != 1 {
+					o.FailAt(fn.Site(dv.AST, ""), "the maximum of field %s is changed in a way the analysis does not understand", k)
+					continue
+				}
+				if call, ok := ast.Unparen(as.Rhs[0]).(*ast.CallExpr); ok && core.CalleeKey(info, call) == "builtin.max" && len(call.Args) == 2 {
+					for j, a := range call.Args {
+						if core.ObjOf(info, a) == mx {
+							f = core.ObjOf(info, call.Args[1-j])
+						}
+					}
+					updates = append(updates, dv)
+					continue
+				}
+				cand := core.ObjOf(info, as.Rhs[0])
+				if cand == nil {
+					o.FailAt(fn.Site(as, ""), "the maximum of field %s is not updated from the field value", k)
+					continue
+				}
+				// guarded by cand > mx (or mx < cand); the comparison is the update point
+				for _, bv := range g.BranchVertices() {
+					if bv.Cond.Expr == nil || !core.Mentions(info, bv.Cond.Expr, mx) || !core.Mentions(info, bv.Cond.Expr, cand) {
+						continue
+					}
+					if g.EdgeDominates(dv, core.EdgeRef{From: bv, Label: core.EdgeTrue}) {
+						okCmp := false
+						for _, a := range bv.Implied(core.EdgeTrue) {
+							if cmp, ok := a.AsCmp(); ok {
+								l, r, op := cmp.L, cmp.R, cmp.Op
+								if op == token.LSS || op == token.LEQ {
+									l, r = r, l
+									op = map[token.Token]token.Token{token.LSS: token.GTR, token.LEQ: token.GEQ}[op]
+								}
+								if (op == token.GTR || op == token.GEQ) && core.ObjOf(info, l) == cand && core.ObjOf(info, r) == mx {
+									okCmp = true
+								}
+							}
+						}
+						if okCmp {
+							f = cand
+							updates = append(updates, bv)
+						}
 					}
 				}
 			}
-			o.Require(okAssign, "maxField%s is not updated from f%s on the greater edge", k, k)
-			// wK derives from maxFieldK via bits.Len64
-			w := localVar(fn, "w"+k, 0)
-			okW := false
-			for _, n := range core.AssignsTo(info, fn.Decl, w) {
-				if as, ok := n.(*ast.AssignStmt); ok {
-					s := core.ExprStr(as.Rhs[0])
-					if strings.Contains(s, "bits.Len64(maxField"+k+")") && strings.Contains(s, "+ 7") && strings.Contains(s, "/ 8") {
-						okW = true
-					}
+			if f == nil || len(updates) == 0 {
+				o.Fail("no update of the maximum of field %s from the field value found in the sizing loop", k)
+				continue
+			}
+			o.At(fn.Site(updates[0].AST, "max update "+k))
+			// every assignment of the field value must be followed by the update before the next iteration
+			for _, dv := range defVertices(g, f) {
+				if _, isSpec := dv.AST.(*ast.ValueSpec); isSpec || !inLoop[dv] {
+					continue
+				}
+				if ds, isDecl := dv.AST.(*ast.DeclStmt); isDecl {
+					_ = ds
+					continue
+				}
+				o.Count(1)
+				if !g.MustPassBefore(dv, []*core.V{head}, updates) {
+					o.FailAt(fn.Site(dv.AST, ""), "after this assignment of the field-%s value the loop can continue without updating the maximum (the field would be written truncated)", k)
 				}
 			}
-			o.Require(okW, "w%s is not (bits.Len64(maxField%s)+7)/8", k, k)
 		}
 	})
 	c.Check(rule, "pdf.(*Writer).writeXRefStream/rows", "every row of the cross-reference stream consists of exactly one type byte, one field of width w2 and one of width w3, in this order, in every branch", func(o *core.Ob) {
-		if len(heads) < 2 {
-			core.Undecided("writing loop not found")
-		}
-		head := heads[1]
+		_, head := xrefStreamLoops(g)
 		o.At(fn.Site(head.AST, "writing loop"))
-		w2 := localVar(fn, "w2", 0)
-		w3 := localVar(fn, "w3", 0)
+		w2, w3 := xrefWidthVars(fn)
 		body := succ(head, core.EdgeTrue)
 		inBody := g.ReachFrom(body, true, core.AvoidVs(head))
 		var tb, f2, f3 []*core.V
@@ -734,13 +777,15 @@ func ruleXRefStreamRows(c *core.Ctx, rule string) {
 			}
 			cur = kind
 		}
-		// type values 0,1,2 only
+		// type values 0,1,2 only (written at the call or chosen in a branch before it)
 		for _, v := range tb {
 			for _, cs := range core.CallsIn(info, v.AST, false) {
 				if strings.HasSuffix(cs.Key, ".WriteByte") {
-					k, ok := core.IntConst(info, cs.Call.Args[0])
-					if !ok || k < 0 || k > 2 {
-						o.FailAt(fn.Site(cs.Call, ""), "entry type %s is not 0, 1 or 2", core.ExprStr(cs.Call.Args[0]))
+					for _, vc := range valueCases(g, v, cs.Call.Args[0], 2) {
+						k, ok := core.IntConst(info, vc.Expr)
+						if !ok || k < 0 || k > 2 {
+							o.FailAt(fn.Site(cs.Call, ""), "entry type %s is not 0, 1 or 2", core.ExprStr(vc.Expr))
+						}
 					}
 				}
 			}
@@ -1414,4 +1459,54 @@ func ruleObjStmSlots(c *core.Ctx, rule string) {
 		})
 		o.Require(n >= 3, "accesses to refs/objects not found")
 	})
+}
+
+// xrefWidthVars finds the width variables of the two fields by their role:
+// the third argument of the first and of the second encodeInt64 call of a row.
+func xrefWidthVars(fn *core.Func) (w2, w3 types.Object) {
+	g := fn.Graph()
+	info := fn.Info()
+	_, head := xrefStreamLoops(g)
+	body := g.ReachFrom(succ(head, core.EdgeTrue), true, core.AvoidVs(head))
+	type em struct {
+		v *core.V
+		w types.Object
+	}
+	var ems []em
+	for v := range body {
+		if v.AST == nil {
+			continue
+		}
+		for _, call := range core.CallsTo(info, v.AST, false, "pdf.encodeInt64") {
+			if len(call.Args) == 3 {
+				ems = append(ems, em{v, core.ObjOf(info, call.Args[2])})
+			}
+		}
+	}
+	for _, a := range ems {
+		first := true
+		for _, b := range ems {
+			if b.w != a.w && g.ReachFrom(b.v, false, core.AvoidVs(head))[a.v] {
+				first = false
+			}
+		}
+		if a.w == nil {
+			core.Undecided("writeXRefStream: a field is written with a width that is not a variable")
+		}
+		if first {
+			if w2 != nil && w2 != a.w {
+				core.Undecided("writeXRefStream: the first field of a row is written with different widths")
+			}
+			w2 = a.w
+		} else {
+			if w3 != nil && w3 != a.w {
+				core.Undecided("writeXRefStream: the second field of a row is written with different widths")
+			}
+			w3 = a.w
+		}
+	}
+	if w2 == nil || w3 == nil {
+		core.Undecided("writeXRefStream: field widths not found")
+	}
+	return w2, w3
 }
